@@ -48,7 +48,7 @@ static Verdict run_step(const Case &c) {
 }
 
 // part 1: histories through the Darwin frame flow + ticks, on one to three interfaces side by side (each daemon thread owns its engine).
-// cfg: [0]=1 [1] engines ; ops: kind 1 frame (a: opcode, engine), 2 advance (a: seconds), 3 tick (a: engine, or -1: every engine in turn)
+// cfg: [0]=1 [1] engines ; ops: kind 1 frame (a: opcode, engine), 2 advance (a: seconds), 3 tick (a: engine, or -1: every engine in turn), 4 engine input that is not a frame (a: input, engine)
 static void noop_hello(void *) {}
 struct Eng {
     br_darwin d{};
@@ -146,6 +146,17 @@ static Verdict run_hist(const Case &c) {
             // the trailing tick of the frame flow runs at the same instant: cannot end the session (0 s since this frame) but may reset an old charge
             if (e.charge_deadline >= 0 && (int64_t)now >= e.charge_deadline && opc != 9) { e.ctc = 0; e.charge_deadline = -1; }
             if (v.ok) others_unmoved(i, x);
+        } else if (op.kind == 4) {   // an engine input that is not a received frame (emission progress -2 / completion -3): moves the state by the table, does not count as traffic
+            int x = (int)(((op.arg(1) % k) + k) % k);
+            Eng &e = E[(size_t)x];
+            int in = (int)op.arg(0);
+            int tmo = e.st == 1 ? t1 : e.st == 2 ? t2 : 0;
+            int got = br_switch_mapping(e.d.mapping, in);
+            if (e.st != 0 && (int64_t)(now - e.last_input) > tmo) {
+                if (got != 0) v.fail(fmt("step %zu: state %d idle for %llu s (timeout %d), engine input %d: state %d", i, e.st, (unsigned long long)(now - e.last_input), tmo, in, got));
+            } else if (got != table_next(e.st, in)) v.fail(fmt("step %zu: state %d, engine input %d: state %d, expected %d", i, e.st, in, got, table_next(e.st, in)));
+            e.st = got; e.last_input = now;
+            if (v.ok) others_unmoved(i, x);
         } else if (op.kind == 3) {
             if (op.arg(0) < 0) { for (int x = 0; x < k && v.ok; x++) tick_one(i, x); }
             else tick_one(i, (int)(op.arg(0) % k));
@@ -205,7 +216,31 @@ static Verdict run_tick30(const Case &c) {
     return v;
 }
 
-static Verdict run(const Case &c) { return c.c(0) == 1 ? run_hist(c) : c.c(0) == 2 ? run_tick30(c) : run_step(c); }
+// part 3: single steps on a millisecond clock. cfg: [0]=3 [1] state [2] input [3] elapsed ms [4] phase of the start within its second (ms)
+// The engine reads whole seconds: idle <= t s must not count as timed out, idle >= t+1 s must, in between either.
+static Verdict run_step_ms(const Case &c) {
+    Verdict v;
+    World w;
+    int st = (int)std::max<int64_t>(0, std::min<int64_t>(c.c(1), 2)), input = (int)c.c(2);
+    uint64_t el = (uint64_t)std::max<int64_t>(0, c.c(3)), base = 100000 + (uint64_t)(c.c(4) % 1000);
+    vp_set_now_ms(base);
+    void *a = fresh(st);
+    if (br_aut_state(a) != st) { v.fail("legal inputs did not drive a fresh automaton into the start state"); br_automata_destroy(a); return v; }
+    int t = br_aut_timeout(a, st);
+    vp_set_now_ms(base + el);
+    int got = br_switch_mapping(a, input);
+    bool must = st != 0 && el >= (uint64_t)(t + 1) * 1000, may = st != 0 && el > (uint64_t)t * 1000;
+    bool ok_plain = got == table_next(st, input), ok_timed = got == 0 || (got == 1 && input == 0);
+    if (must ? !ok_timed : may ? !(ok_plain || ok_timed) : !ok_plain)
+        v.fail(fmt("state %d, input %d, %llu ms after the last input (timeout %d s, start %llu ms into its second): went to state %d, expected %s", st, input, (unsigned long long)el, t, (unsigned long long)(base % 1000), got,
+                   must ? "Idle (timed out)" : may ? "the table's state or Idle" : fmt("%d (no timeout yet)", table_next(st, input)).c_str()));
+    br_automata_destroy(a);
+    v.nontrivial = st != 0 && (el + 1500 >= (uint64_t)t * 1000 && el <= (uint64_t)(t + 1) * 1000 + 500);
+    v.cls(must ? "ms:timed-out" : may ? "ms:either" : "ms:in-time");
+    return v;
+}
+
+static Verdict run(const Case &c) { return c.c(0) == 1 ? run_hist(c) : c.c(0) == 2 ? run_tick30(c) : c.c(0) == 3 ? run_step_ms(c) : run_step(c); }
 
 int main(int argc, char **argv) {
     Args a = parse_args(argc, argv);
@@ -259,12 +294,25 @@ int main(int argc, char **argv) {
                 int k = *gx::range<int>(0, 9);
                 if (k <= 4) { o.kind = 1; o.a = {*gx::weighted<int64_t>({{6, gx::pick({0, 2, 8, 9, 4, 6, 11})}, {2, gx::range<int64_t>(0, 12)}, {1, gx::range<int64_t>(0, 255)}}), *gx::range<int64_t>(0, 2)}; }
                 else if (k <= 7) { o.kind = 2; o.a = {*gx::bnd({0, 1, 4, 5, 6, 29, 30, 31, 60, 61}, 0, 120, 3, 1)}; }
-                else { o.kind = 3; o.a = {*gx::pick({-1, -1, 0, 1, 2})}; }
+                else if (k == 8) { o.kind = 3; o.a = {*gx::pick({-1, -1, 0, 1, 2})}; }
+                else if (*gx::chance(70)) { o.kind = 3; o.a = {*gx::pick({-1, -1, 0, 1, 2})}; }
+                else { o.kind = 4; o.a = {*gx::pick({-2, -2, -3}), *gx::range<int64_t>(0, 2)}; }
                 return o;
             })));
             return c;
         });
         ok = run_cases(a, ev, "c14-histories", a.n(240000, 1500000), 100, gen, run);
+    }
+    if (ok) {
+        auto genms = rc::gen::exec([] {
+            Case c;
+            int64_t st = *gx::pick({1, 1, 2, 2, 0});
+            int64_t t = st == 1 ? 5 : st == 2 ? 30 : 0;
+            c.cfg = {3, st, *gx::weighted<int64_t>({{5, gx::pick({0, 2, 8, -1, -2, -3, 4, 9})}, {1, gx::range<int64_t>(-128, 255)}}),
+                     std::max<int64_t>(0, t * 1000 + *gx::pick({-5000, -1500, -1000, -999, -600, -500, -400, -1, 0, 1, 400, 500, 600, 999, 1000, 1001, 1500, 5000})), *gx::pick({0, 1, 100, 400, 500, 600, 900, 999})};
+            return c;
+        });
+        ok = run_cases(a, ev, "c14-steps-ms", a.n(60000, 400000), 100, genms, run);
     }
     ev.write(a.out);
     return ok ? 0 : 1;
